@@ -1,446 +1,398 @@
 ----------------------------- MODULE Lifecycle -----------------------------
 (***************************************************************************)
 (* Life cycle of session channels and of the connection in asyncssh:       *)
-(* open / confirm / failure, the exec request and its reply, EOF, the      *)
-(* CLOSE handshake, local close/abort, connection close (DISCONNECT),      *)
-(* abort and loss of the transport at any moment, with the deferred        *)
-(* clean-up callbacks (loop.call_soon(self._cleanup)) as explicit steps.   *)
+(* open / confirm / failure, the exec request and its reply, data with     *)
+(* pause/resume of reading, EOF, the CLOSE handshake, local close/abort,   *)
+(* connection close (DISCONNECT), abort and loss of the transport at any   *)
+(* moment, several packets coalesced into one read, and the deferred       *)
+(* callbacks (loop.call_soon(self._cleanup), task wake-ups) as explicit    *)
+(* FIFO steps.                                                             *)
 (* Sources: channel.py _open, process_open, _finish_open_request,          *)
-(* process_open_confirmation/failure, create, _process_eof/_close,         *)
-(* close, abort, _close_send, _discard_recv, _flush_recv_buf, _cleanup,    *)
+(* process_open_confirmation/failure, create, _process_data, _accept_data, *)
+(* _flush_recv_buf, _process_eof/_close, close, abort, _close_send,        *)
+(* _discard_recv, pause_reading/resume_reading/_start_reading, _cleanup,   *)
 (* process_connection_close; connection.py disconnect, abort,              *)
 (* _force_close, _cleanup, _process_disconnect, connection_lost.           *)
-(* Sides: "c" opens channels, "s" accepts them.                            *)
+(* Sides: "c" opens channels, "s" accepts them.  The whole state is one    *)
+(* record s so that actions only name what they change.                    *)
 (***************************************************************************)
 EXTENDS Naturals, Sequences, FiniteSets, TLC
 
-CONSTANTS Chans,        \* channel ids
+CONSTANTS Chans,        \* channel ids (subset of {1, 2})
           Reject,       \* channels whose open the server application refuses
           MaxOps,       \* budget of application-level operations
           Cuts,         \* budget of transport cuts (0 or 1)
-          ResolveOnConnCleanup  \* FALSE: sensitivity variant, connection clean-up forgets the open waiters
+          ConnOps,      \* TRUE: connection-level close / abort operations are enabled
+          WithData,     \* TRUE: data / pause / resume operations are enabled
+          FailReqOnClose,   \* TRUE: an incoming CLOSE fails outstanding channel requests (repaired code)
+          ResolveOnConnCleanup  \* FALSE: sensitivity variant (connection clean-up forgets open waiters)
 
 Sides == {"c", "s"}
 Other(x) == IF x = "c" THEN "s" ELSE "c"
-
-VARIABLES
-    ss, rs,       \* [side -> [ch -> send/recv state]]
-    reg,          \* [side -> [ch -> BOOLEAN]]  channel registered on the connection
-    phase,        \* [ch -> "none"|"opening"|"requesting"|"started"|"failed"] client create() progress
-    openW,        \* [ch -> "none"|"pending"|"ok"|"err"]      _open_waiter
-    reqW,         \* [ch -> "none"|"pending"|"ok"|"false"|"err"] exec request waiter
-    createW,      \* [ch -> "none"|"pending"|"ok"|"err"]      the create_session() call
-    hasSess,      \* [side -> [ch -> BOOLEAN]]  channel has a session attached
-    reading,      \* [side -> [ch -> BOOLEAN]]  _recv_paused left 'starting'
-    log,          \* [side -> [ch -> Seq(callback names)]]
-    closeEv,      \* [side -> [ch -> BOOLEAN]]  channel close event set
-    up,           \* [side -> BOOLEAN] transport attached
-    connClosed,   \* [side -> BOOLEAN] connection clean-up ran
-    ownerLost,    \* [side -> Nat]  connection_lost calls on the owner
-    net,          \* [side -> Seq(msg)] messages written by side, not yet received by the peer
-    chunk,        \* <<side, n>>: n more messages written by side are handled in the running data_received call
-    ready,        \* FIFO of deferred callbacks <<side, kind, ch>>
-    nops, ncuts,
-    lbl
-
-vars == <<ss, rs, reg, phase, openW, reqW, createW, hasSess, reading, log, closeEv, up,
-          connClosed, ownerLost, net, chunk, ready, nops, ncuts, lbl>>
-view == <<ss, rs, reg, phase, openW, reqW, createW, hasSess, reading, log, closeEv, up,
-          connClosed, ownerLost, net, chunk, ready, nops, ncuts>>
-
 Msg(t, ch) == [t |-> t, ch |-> ch]
 
+VARIABLES s, lbl,
+          script   \* history: labels of all steps except deferred callbacks (for replay)
+vars == <<s, lbl, script>>
+view == s
+\* for transition-covering script emission: the last label (which carries the
+\* pre-state class of the channel it acts on) is part of the state identity
+viewL == <<s, lbl>>
+
+PerChan(v) == [x \in Sides |-> [c \in Chans |-> v]]
+
 Init ==
-    /\ ss = [x \in Sides |-> [c \in Chans |-> "closed"]]
-    /\ rs = [x \in Sides |-> [c \in Chans |-> "closed"]]
-    /\ reg = [x \in Sides |-> [c \in Chans |-> FALSE]]
-    /\ phase = [c \in Chans |-> "none"]
-    /\ openW = [c \in Chans |-> "none"] /\ reqW = [c \in Chans |-> "none"]
-    /\ createW = [c \in Chans |-> "none"]
-    /\ hasSess = [x \in Sides |-> [c \in Chans |-> FALSE]]
-    /\ reading = [x \in Sides |-> [c \in Chans |-> FALSE]]
-    /\ log = [x \in Sides |-> [c \in Chans |-> <<>>]]
-    /\ closeEv = [x \in Sides |-> [c \in Chans |-> FALSE]]
-    /\ up = [x \in Sides |-> TRUE] /\ connClosed = [x \in Sides |-> FALSE]
-    /\ ownerLost = [x \in Sides |-> 0]
-    /\ net = [x \in Sides |-> <<>>] /\ chunk = <<"c", 0>>
-    /\ ready = <<>> /\ nops = 0 /\ ncuts = 0
-    /\ lbl = <<"init">>
+    /\ s = [ ss |-> PerChan("closed"), rs |-> PerChan("closed"),
+             reg |-> PerChan(FALSE),          \* channel registered on the connection
+             hasSess |-> PerChan(FALSE),      \* a session is attached
+             reading |-> PerChan("starting"), \* _recv_paused: "starting" | "reading" | "paused"
+             rbufN |-> PerChan(0),            \* chunks buffered in the channel
+             log |-> PerChan(<<>>),           \* session callbacks
+             closeEv |-> PerChan(FALSE),      \* channel close event set
+             phase |-> [c \in Chans |-> "none"],
+             openW |-> [c \in Chans |-> "none"],    \* "none"|"pending"|"ok"|"err"
+             reqW |-> [c \in Chans |-> "none"],     \* "none"|"pending"|"ok"|"false"|"err"
+             createW |-> [c \in Chans |-> "none"],  \* the create_session() call
+             up |-> [x \in Sides |-> TRUE],         \* transport attached
+             connClosed |-> [x \in Sides |-> FALSE],
+             ownerLost |-> [x \in Sides |-> 0],
+             net |-> [x \in Sides |-> <<>>],        \* written by x, not yet received by the peer
+             chunk |-> <<"c", 0>>,                  \* messages still handled by the running data_received
+             ready |-> <<>>,                        \* deferred callbacks <<side, kind, ch>>
+             nops |-> 0, ncuts |-> 0 ]
+    /\ lbl = <<"init">> /\ script = <<>>
 
-Idle == ready = <<>> /\ chunk[2] = 0
+Idle == s.ready = <<>> /\ s.chunk[2] = 0
+\* packets written on a connection whose transport is gone are dropped
+Out(x, msgs) == IF s.up[x] THEN s.net[x] \o msgs ELSE s.net[x]
+CloseMsgs(x, ch) == IF s.ss[x][ch] # "closed" /\ s.reg[x][ch] THEN <<Msg("CLOSE", ch)>> ELSE <<>>
+Logged(x, ch, names) == IF s.hasSess[x][ch] THEN s.log[x][ch] \o names ELSE s.log[x][ch]
+Rep(n, v) == [i \in 1..n |-> v]
 
-\* send_packet on a connection whose transport is gone is dropped
-Send(x, msgs) == IF up[x] THEN [net EXCEPT ![x] = @ \o msgs] ELSE net
+Pre(x, ch) == <<s.ss[x][ch], s.rs[x][ch], s.reading[x][ch], s.rbufN[x][ch] > 0>>
+
+Step(new, l) == /\ s' = new /\ lbl' = l
+                /\ script' = IF l[1] = "run" THEN script ELSE Append(script, l)
+Op(new, l) == Step([new EXCEPT !.nops = s.nops + 1], l)
 
 -----------------------------------------------------------------------------
-(* Channel-level helpers, as pure functions over the per-side maps *)
-
-\* _close_send: CLOSE is sent once
-CloseSendMsgs(x, ch) == IF ss[x][ch] # "closed" /\ reg[x][ch] THEN <<Msg("CLOSE", ch)>> ELSE <<>>
-
------------------------------------------------------------------------------
-(* Application operations (external) *)
+(* Application operations (external; only when the loop is idle) *)
 
 Open(ch) ==
-    /\ Idle /\ nops < MaxOps /\ phase[ch] = "none" /\ up["c"]
-    /\ phase' = [phase EXCEPT ![ch] = "opening"]
-    /\ reg' = [reg EXCEPT !["c"][ch] = TRUE]
-    /\ openW' = [openW EXCEPT ![ch] = "pending"]
-    /\ createW' = [createW EXCEPT ![ch] = "pending"]
-    /\ net' = Send("c", <<Msg("OPEN", ch)>>)
-    /\ nops' = nops + 1 /\ lbl' = <<"open", ch>>
-    /\ UNCHANGED <<ss, rs, reqW, hasSess, reading, log, closeEv, up, connClosed, ownerLost,
-                   chunk, ready, ncuts>>
+    /\ Idle /\ s.nops < MaxOps /\ s.phase[ch] = "none" /\ s.up["c"]
+    /\ Op([s EXCEPT !.phase[ch] = "opening", !.reg["c"][ch] = TRUE,
+                    !.openW[ch] = "pending", !.createW[ch] = "pending",
+                    !.net["c"] = Out("c", <<Msg("OPEN", ch)>>)], <<"open", ch>>)
 
 WriteEOF(x, ch) ==
-    /\ Idle /\ nops < MaxOps /\ ss[x][ch] = "open" /\ hasSess[x][ch]
-    /\ ss' = [ss EXCEPT ![x][ch] = "eof"]
-    /\ net' = Send(x, <<Msg("EOF", ch)>>)
-    /\ nops' = nops + 1 /\ lbl' = <<"weof", x, ch>>
-    /\ UNCHANGED <<rs, reg, phase, openW, reqW, createW, hasSess, reading, log, closeEv, up,
-                   connClosed, ownerLost, chunk, ready, ncuts>>
+    /\ Idle /\ s.nops < MaxOps /\ s.ss[x][ch] = "open" /\ s.hasSess[x][ch]
+    /\ Op([s EXCEPT !.ss[x][ch] = "eof", !.net[x] = Out(x, <<Msg("EOF", ch)>>)],
+          <<"weof", x, ch, Pre(x, ch)>>)
 
-\* close() and abort() coincide when nothing is buffered
+WriteData(x, ch) ==
+    /\ WithData /\ Idle /\ s.nops < MaxOps /\ s.ss[x][ch] = "open" /\ s.hasSess[x][ch]
+    /\ Op([s EXCEPT !.net[x] = Out(x, <<Msg("DATA", ch)>>)], <<"wdata", x, ch, Pre(x, ch)>>)
+
+Pause(x, ch) ==
+    /\ WithData /\ Idle /\ s.nops < MaxOps /\ s.hasSess[x][ch] /\ s.reading[x][ch] = "reading"
+    /\ Op([s EXCEPT !.reading[x][ch] = "paused"], <<"pause", x, ch, Pre(x, ch)>>)
+
+\* _flush_recv_buf as a state update on side x, channel ch, given that reading is on
+Flushed(st, x, ch) ==
+    LET n == st.rbufN[x][ch]
+        rs0 == st.rs[x][ch]
+        rs1 == IF rs0 = "eof_pending" THEN "eof"
+               ELSE IF rs0 = "close_pending" THEN "closed" ELSE rs0
+        names == Rep(n, "data_received") \o
+                 (IF rs0 = "eof_pending" THEN <<"eof_received">> ELSE <<>>)
+    IN [st EXCEPT !.rbufN[x][ch] = 0, !.rs[x][ch] = rs1,
+                  !.log[x][ch] = IF st.hasSess[x][ch] THEN @ \o names ELSE @,
+                  !.ready = IF rs0 = "close_pending" THEN Append(@, <<x, "chan", ch>>) ELSE @]
+
+Resume(x, ch) ==
+    /\ WithData /\ Idle /\ s.nops < MaxOps /\ s.hasSess[x][ch] /\ s.reading[x][ch] = "paused"
+    /\ Op(Flushed([s EXCEPT !.reading[x][ch] = "reading"], x, ch), <<"resume", x, ch, Pre(x, ch)>>)
+
+\* close() / abort(): with nothing buffered for sending they differ only in name.
+\* _close_send if still open for sending, then _discard_recv.
 Close(x, ch, how) ==
-    /\ Idle /\ nops < MaxOps /\ reg[x][ch] /\ hasSess[x][ch]
-    /\ ss[x][ch] \in {"open", "eof"}
-    /\ net' = Send(x, CloseSendMsgs(x, ch))
-    /\ ss' = [ss EXCEPT ![x][ch] = "closed"]
-    \* _discard_recv: only cleans up if the peer's CLOSE was already seen
-    /\ UNCHANGED rs
-    /\ nops' = nops + 1 /\ lbl' = <<how, x, ch>>
-    /\ UNCHANGED <<reg, phase, openW, reqW, createW, hasSess, reading, log, closeEv, up,
-                   connClosed, ownerLost, chunk, ready, ncuts>>
+    /\ Idle /\ s.nops < MaxOps /\ s.reg[x][ch] /\ s.hasSess[x][ch]
+    /\ s.ss[x][ch] \in {"open", "eof"} \/ s.rs[x][ch] = "close_pending"
+    /\ Op([s EXCEPT !.net[x] = Out(x, CloseMsgs(x, ch)),
+                    !.ss[x][ch] = "closed",
+                    !.rbufN[x][ch] = 0,
+                    \* _discard_recv (only if the receive side is not closed yet):
+                    \* buffer dropped and _recv_paused = False, even if reading never started
+                    !.reading[x][ch] = IF s.rs[x][ch] # "closed" THEN "reading" ELSE @,
+                    !.rs[x][ch] = IF @ = "close_pending" THEN "closed" ELSE @,
+                    !.ready = IF s.rs[x][ch] = "close_pending"
+                              THEN Append(@, <<x, "chan", ch>>) ELSE @],
+          <<how, x, ch, Pre(x, ch)>>)
 
 \* conn.close(): close every channel, DISCONNECT, _force_close
 ConnClose(x) ==
-    /\ Idle /\ nops < MaxOps /\ up[x]
-    /\ LET chs == {c \in Chans : reg[x][c]}
-           closing == {c \in chs : ss[x][c] \in {"open", "eof"}}
-           msgs == [i \in 1..0 |-> 0]
-       IN /\ net' = [net EXCEPT ![x] = @ \o
-                        \* CLOSE for every channel that is open for sending, in channel order
-                        (IF 1 \in closing THEN <<Msg("CLOSE", 1)>> ELSE <<>>) \o
-                        (IF 2 \in closing THEN <<Msg("CLOSE", 2)>> ELSE <<>>) \o
-                        <<Msg("DISC", 0), Msg("LOST", 0)>>]
-          /\ ss' = [ss EXCEPT ![x] = [c \in Chans |-> IF c \in closing THEN "closed" ELSE ss[x][c]]]
-    /\ up' = [up EXCEPT ![x] = FALSE]
-    /\ ready' = Append(ready, <<x, "conn", 0>>)
-    /\ nops' = nops + 1 /\ lbl' = <<"connclose", x>>
-    /\ UNCHANGED <<rs, reg, phase, openW, reqW, createW, hasSess, reading, log, closeEv,
-                   connClosed, ownerLost, chunk, ncuts>>
+    /\ ConnOps /\ Idle /\ s.nops < MaxOps /\ s.up[x]
+    /\ LET closing == {c \in Chans : s.reg[x][c] /\ s.ss[x][c] \in {"open", "eof"}}
+           cp == {c \in Chans : s.reg[x][c] /\ s.rs[x][c] = "close_pending"}
+           msgs == (IF 1 \in closing THEN <<Msg("CLOSE", 1)>> ELSE <<>>) \o
+                   (IF 2 \in closing THEN <<Msg("CLOSE", 2)>> ELSE <<>>) \o
+                   <<Msg("DISC", 0), Msg("LOST", 0)>>
+           touched == {c \in Chans : s.reg[x][c]}
+       IN Op([s EXCEPT !.net[x] = @ \o msgs,
+                       !.ss[x] = [c \in Chans |-> IF c \in closing THEN "closed" ELSE @[c]],
+                       !.rbufN[x] = [c \in Chans |-> IF c \in touched THEN 0 ELSE @[c]],
+                       !.reading[x] = [c \in Chans |-> IF c \in touched /\ s.rs[x][c] # "closed"
+                                                       THEN "reading" ELSE @[c]],
+                       !.rs[x] = [c \in Chans |-> IF c \in cp THEN "closed" ELSE @[c]],
+                       !.up[x] = FALSE,
+                       !.ready = @ \o (IF 1 \in cp THEN <<<<x, "chan", 1>>>> ELSE <<>>)
+                                   \o (IF 2 \in cp THEN <<<<x, "chan", 2>>>> ELSE <<>>)
+                                   \o <<<<x, "conn", 0>>>>],
+             <<"connclose", x>>)
 
-\* conn.abort(): no DISCONNECT; the peer sees the transport go away
+\* conn.abort(): no DISCONNECT; the peer sees the stream end
 ConnAbort(x) ==
-    /\ Idle /\ nops < MaxOps /\ up[x]
-    /\ up' = [up EXCEPT ![x] = FALSE]
-    /\ net' = [net EXCEPT ![x] = Append(@, Msg("LOST", 0))]
-    /\ ready' = Append(ready, <<x, "conn", 0>>)
-    /\ nops' = nops + 1 /\ lbl' = <<"connabort", x>>
-    /\ UNCHANGED <<ss, rs, reg, phase, openW, reqW, createW, hasSess, reading, log, closeEv,
-                   connClosed, ownerLost, chunk, ncuts>>
+    /\ ConnOps /\ Idle /\ s.nops < MaxOps /\ s.up[x]
+    /\ Op([s EXCEPT !.up[x] = FALSE, !.net[x] = Append(@, Msg("LOST", 0)),
+                    !.ready = Append(@, <<x, "conn", 0>>)], <<"connabort", x>>)
 
 \* the transport is cut: both ends get connection_lost, nothing in flight arrives
 Cut ==
-    /\ Idle /\ ncuts < Cuts /\ (up["c"] \/ up["s"])
-    /\ up' = [x \in Sides |-> FALSE]
-    /\ net' = [x \in Sides |-> <<>>]
-    /\ ready' = ready \o (IF up["c"] THEN <<<<"c", "conn", 0>>>> ELSE <<>>)
-                      \o (IF up["s"] THEN <<<<"s", "conn", 0>>>> ELSE <<>>)
-    /\ ncuts' = ncuts + 1 /\ lbl' = <<"cut">> /\ chunk' = <<"c", 0>>
-    /\ UNCHANGED <<ss, rs, reg, phase, openW, reqW, createW, hasSess, reading, log, closeEv,
-                   connClosed, ownerLost, nops>>
+    /\ Idle /\ s.ncuts < Cuts /\ (s.up["c"] \/ s.up["s"])
+    /\ Step([s EXCEPT !.up = [x \in Sides |-> FALSE],
+                      !.net = [x \in Sides |-> <<>>],
+                      !.ready = @ \o (IF s.up["c"] THEN <<<<"c", "conn", 0>>>> ELSE <<>>)
+                                  \o (IF s.up["s"] THEN <<<<"s", "conn", 0>>>> ELSE <<>>),
+                      !.ncuts = @ + 1], <<"cut">>)
 
 -----------------------------------------------------------------------------
-(* Delivery of one message written by side x to its peer y *)
-
-\* a protocol error at y: DISCONNECT sent, _force_close
-ProtoErr(y) ==
-    /\ up' = [up EXCEPT ![y] = FALSE]
-    /\ ready' = Append(ready, <<y, "conn", 0>>)
-
-\* the network hands k messages written by x to the peer in one data_received call
+(* Network: k messages written by x reach the peer in one data_received call; *)
+(* end-of-stream is a separate read event                                     *)
 StartChunk(x, k) ==
-    /\ Idle /\ k >= 1 /\ k <= Len(net[x])
-    \* end-of-stream is a separate read event, never part of a data chunk
-    /\ k = 1 \/ \A i \in 1..k : net[x][i].t # "LOST"
-    /\ chunk' = <<x, k>>
-    /\ lbl' = <<"chunk", x, k>>
-    /\ UNCHANGED <<ss, rs, reg, phase, openW, reqW, createW, hasSess, reading, log, closeEv, up,
-                   connClosed, ownerLost, net, ready, nops, ncuts>>
+    /\ Idle /\ k >= 1 /\ k <= Len(s.net[x])
+    /\ k = 1 \/ \A i \in 1..k : s.net[x][i].t # "LOST"
+    /\ Step([s EXCEPT !.chunk = <<x, k>>], <<"chunk", x, k>>)
+
+\* a protocol error at y: _force_close
+ProtoErr(st, y) == [st EXCEPT !.up[y] = FALSE, !.ready = Append(@, <<y, "conn", 0>>)]
 
 Deliver(x) ==
-    /\ chunk[1] = x /\ chunk[2] > 0 /\ net[x] # <<>>
-    /\ chunk' = <<x, chunk[2] - 1>>
-    /\ LET y == Other(x) m == Head(net[x]) ch == m.ch IN
-       /\ lbl' = <<"deliver", x, m.t, ch>>
-       /\ UNCHANGED <<nops, ncuts, connClosed, ownerLost>>
-       /\ IF ~up[y] /\ m.t # "LOST"
-          THEN \* receiver already gone: bytes are dropped
-               /\ net' = [net EXCEPT ![x] = Tail(@)]
-               /\ UNCHANGED <<ss, rs, reg, phase, openW, reqW, createW, hasSess, reading, log,
-                              closeEv, up, ready>>
-          ELSE CASE m.t = "LOST" ->
-                    \* peer's transport went away: connection_lost at y
-                    /\ net' = [net EXCEPT ![x] = Tail(@)]
-                    /\ IF up[y]
-                       THEN /\ up' = [up EXCEPT ![y] = FALSE]
-                            /\ ready' = Append(ready, <<y, "conn", 0>>)
-                       ELSE UNCHANGED <<up, ready>>
-                    /\ UNCHANGED <<ss, rs, reg, phase, openW, reqW, createW, hasSess, reading,
-                                   log, closeEv>>
-               [] m.t = "DISC" ->
-                    /\ net' = [net EXCEPT ![x] = Tail(@)]
-                    /\ up' = [up EXCEPT ![y] = FALSE]
-                    /\ ready' = Append(ready, <<y, "conn", 0>>)
-                    /\ UNCHANGED <<ss, rs, reg, phase, openW, reqW, createW, hasSess, reading,
-                                   log, closeEv>>
-               [] m.t = "OPEN" ->
-                    \* server: channel created and registered; _finish_open_request is a task
-                    /\ IF ch \in Reject
-                       THEN /\ net' = [net EXCEPT ![x] = Tail(@), ![y] = Append(@, Msg("FAIL", ch))]
-                            /\ UNCHANGED <<reg, ready>>
-                       ELSE /\ net' = [net EXCEPT ![x] = Tail(@)]
-                            /\ reg' = [reg EXCEPT ![y][ch] = TRUE]
-                            /\ ready' = Append(ready, <<y, "finopen", ch>>)
-                    /\ UNCHANGED <<ss, rs, phase, openW, reqW, createW, hasSess, reading, log,
-                                   closeEv, up>>
-               [] m.t = "CONF" ->
-                    /\ net' = [net EXCEPT ![x] = Tail(@)]
-                    /\ IF openW[ch] = "pending" /\ reg[y][ch]
-                       THEN /\ openW' = [openW EXCEPT ![ch] = "ok"]
-                            /\ ss' = [ss EXCEPT ![y][ch] = "open"]
-                            /\ rs' = [rs EXCEPT ![y][ch] = "open"]
-                            /\ ready' = Append(ready, <<y, "afteropen", ch>>)
-                            /\ UNCHANGED up
-                       ELSE /\ ProtoErr(y) /\ UNCHANGED <<openW, ss, rs>>
-                    /\ UNCHANGED <<reg, phase, reqW, createW, hasSess, reading, log, closeEv>>
-               [] m.t = "FAIL" ->
-                    /\ net' = [net EXCEPT ![x] = Tail(@)]
-                    /\ IF openW[ch] = "pending" /\ reg[y][ch]
-                       THEN /\ openW' = [openW EXCEPT ![ch] = "err"]
-                            /\ ready' = ready \o <<<<y, "chan", ch>>, <<y, "afteropen", ch>>>>
-                            /\ UNCHANGED up
-                       ELSE /\ ProtoErr(y) /\ UNCHANGED openW
-                    /\ UNCHANGED <<ss, rs, reg, phase, reqW, createW, hasSess, reading, log, closeEv>>
-               [] m.t = "REQ" ->
-                    \* server: exec request; session_started on success
-                    /\ IF reg[y][ch] /\ rs[y][ch] \in {"open", "eof_pending", "eof"}
-                       THEN /\ net' = [net EXCEPT ![x] = Tail(@),
-                                                  ![y] = IF ss[y][ch] # "closed" THEN Append(@, Msg("SUCC", ch)) ELSE @]
-                            /\ log' = [log EXCEPT ![y][ch] =
-                                          IF rs[y][ch] = "eof_pending"
-                                          THEN @ \o <<"session_started", "eof_received">>
-                                          ELSE Append(@, "session_started")]
-                            /\ reading' = [reading EXCEPT ![y][ch] = TRUE]
-                            /\ rs' = [rs EXCEPT ![y][ch] = IF @ = "eof_pending" THEN "eof" ELSE @]
-                            /\ UNCHANGED <<up, ready>>
-                       ELSE /\ net' = [net EXCEPT ![x] = Tail(@)]
-                            /\ ProtoErr(y) /\ UNCHANGED <<log, reading, rs>>
-                    /\ UNCHANGED <<ss, reg, phase, openW, reqW, createW, hasSess, closeEv>>
-               [] m.t = "SUCC" ->
-                    /\ net' = [net EXCEPT ![x] = Tail(@)]
-                    /\ IF reg[y][ch] /\ reqW[ch] = "pending"
-                       THEN /\ reqW' = [reqW EXCEPT ![ch] = "ok"]
-                            /\ ready' = Append(ready, <<y, "afterreq", ch>>)
-                            /\ UNCHANGED up
-                       ELSE /\ ProtoErr(y) /\ UNCHANGED reqW
-                    /\ UNCHANGED <<ss, rs, reg, phase, openW, createW, hasSess, reading, log, closeEv>>
-               [] m.t = "EOF" ->
-                    /\ net' = [net EXCEPT ![x] = Tail(@)]
-                    /\ IF reg[y][ch] /\ rs[y][ch] = "open"
-                       THEN /\ rs' = [rs EXCEPT ![y][ch] = IF reading[y][ch] THEN "eof" ELSE "eof_pending"]
-                            /\ log' = [log EXCEPT ![y][ch] =
-                                          IF hasSess[y][ch] /\ reading[y][ch]
-                                          THEN Append(@, "eof_received") ELSE @]
-                            /\ UNCHANGED <<up, ready>>
-                       ELSE /\ ProtoErr(y) /\ UNCHANGED <<rs, log>>
-                    /\ UNCHANGED <<ss, reg, phase, openW, reqW, createW, hasSess, reading, closeEv>>
-               [] m.t = "CLOSE" ->
-                    IF reg[y][ch] /\ rs[y][ch] \in {"open", "eof_pending", "eof"}
-                    THEN \* _close_send, close_pending, flush (empty) -> closed, cleanup deferred
-                         /\ net' = [net EXCEPT ![x] = Tail(@),
-                                               ![y] = @ \o CloseSendMsgs(y, ch)]
-                         /\ ss' = [ss EXCEPT ![y][ch] = "closed"]
-                         /\ rs' = [rs EXCEPT ![y][ch] = "closed"]
-                         /\ ready' = Append(ready, <<y, "chan", ch>>)
-                         /\ UNCHANGED <<reg, phase, openW, reqW, createW, hasSess, reading, log,
-                                        closeEv, up>>
-                    ELSE /\ net' = [net EXCEPT ![x] = Tail(@)]
-                         /\ ProtoErr(y)
-                         /\ UNCHANGED <<ss, rs, reg, phase, openW, reqW, createW, hasSess,
-                                        reading, log, closeEv>>
-               [] OTHER -> FALSE
+    /\ s.chunk[1] = x /\ s.chunk[2] > 0 /\ s.net[x] # <<>>
+    /\ LET y == Other(x)
+           m == IF s.net[x] = <<>> THEN Msg("NONE", 0) ELSE Head(s.net[x])
+           ch == m.ch
+           t == m.t
+           s0 == [s EXCEPT !.net[x] = Tail(@), !.chunk = <<x, s.chunk[2] - 1>>]
+           regd == ch \in Chans /\ s.reg[y][ch]
+           new ==
+             IF ~s.up[y] /\ t # "LOST" THEN s0          \* receiver gone: bytes dropped
+             ELSE IF t = "LOST" THEN
+                  IF s.up[y] THEN ProtoErr(s0, y) ELSE s0
+             ELSE IF t = "DISC" THEN ProtoErr(s0, y)
+             ELSE IF t = "OPEN" THEN
+                  IF ch \in Reject
+                  THEN [s0 EXCEPT !.net[y] = Append(@, Msg("FAIL", ch))]
+                  ELSE [s0 EXCEPT !.reg[y][ch] = TRUE,
+                                  !.ready = Append(@, <<y, "finopen", ch>>)]
+             ELSE IF t = "CONF" THEN
+                  IF s.openW[ch] = "pending" /\ regd
+                  THEN [s0 EXCEPT !.openW[ch] = "ok", !.ss[y][ch] = "open", !.rs[y][ch] = "open",
+                                  !.ready = Append(@, <<y, "afteropen", ch>>)]
+                  ELSE ProtoErr(s0, y)
+             ELSE IF t = "FAIL" THEN
+                  IF s.openW[ch] = "pending" /\ regd
+                  THEN [s0 EXCEPT !.openW[ch] = "err",
+                                  !.ready = @ \o <<<<y, "chan", ch>>, <<y, "afteropen", ch>>>>]
+                  ELSE ProtoErr(s0, y)
+             ELSE IF t = "REQ" THEN
+                  \* server: exec request -> session_started, resume_reading (flush)
+                  IF regd /\ s.rs[y][ch] \in {"open", "eof_pending", "eof"}
+                  THEN LET s1 == [s0 EXCEPT
+                                    !.net[y] = IF s.ss[y][ch] # "closed" THEN Append(@, Msg("SUCC", ch)) ELSE @,
+                                    !.log[y][ch] = Logged(y, ch, <<"session_started">>),
+                                    !.reading[y][ch] = "reading"]
+                       IN IF s.reading[y][ch] = "starting" THEN Flushed(s1, y, ch) ELSE s1
+                  ELSE ProtoErr(s0, y)
+             ELSE IF t = "SUCC" THEN
+                  IF regd /\ s.reqW[ch] = "pending"
+                  THEN [s0 EXCEPT !.reqW[ch] = "ok", !.ready = Append(@, <<y, "afterreq", ch>>)]
+                  ELSE ProtoErr(s0, y)
+             ELSE IF t = "DATA" THEN
+                  IF regd /\ s.rs[y][ch] = "open"
+                  THEN IF s.ss[y][ch] = "closed" THEN s0     \* dropped: channel closed by the session
+                       ELSE IF s.reading[y][ch] = "reading"
+                       THEN [s0 EXCEPT !.log[y][ch] = Logged(y, ch, <<"data_received">>)]
+                       ELSE [s0 EXCEPT !.rbufN[y][ch] = @ + 1]
+                  ELSE ProtoErr(s0, y)
+             ELSE IF t = "EOF" THEN
+                  IF regd /\ s.rs[y][ch] = "open"
+                  THEN IF s.rbufN[y][ch] = 0 /\ s.reading[y][ch] # "starting"
+                       THEN [s0 EXCEPT !.rs[y][ch] = "eof",
+                                       !.log[y][ch] = Logged(y, ch, <<"eof_received">>)]
+                       ELSE [s0 EXCEPT !.rs[y][ch] = "eof_pending"]
+                  ELSE ProtoErr(s0, y)
+             ELSE IF t = "CLOSE" THEN
+                  IF regd /\ s.rs[y][ch] \in {"open", "eof_pending", "eof"}
+                  THEN \* _close_send; close_pending; flush
+                       \* requests still outstanding are failed (no reply can follow a CLOSE);
+                       \* FailReqOnClose = FALSE is the pre-repair behaviour
+                       LET sA == [s0 EXCEPT !.net[y] = @ \o CloseMsgs(y, ch),
+                                            !.ss[y][ch] = "closed"]
+                           s1 == IF FailReqOnClose /\ y = "c" /\ s.reqW[ch] = "pending"
+                                 THEN [sA EXCEPT !.reqW[ch] = "false",
+                                                 !.ready = Append(@, <<"c", "afterreq", ch>>)]
+                                 ELSE sA
+                       IN IF s.rbufN[y][ch] = 0
+                          THEN [s1 EXCEPT !.rs[y][ch] = "closed",
+                                          !.ready = Append(@, <<y, "chan", ch>>)]
+                          ELSE [s1 EXCEPT !.rs[y][ch] = "close_pending"]
+                  ELSE ProtoErr(s0, y)
+             ELSE s0
+       IN Step(new, <<"deliver", x, t, ch>>)
 
 -----------------------------------------------------------------------------
-(* Deferred callbacks and task continuations (internal, FIFO) *)
+(* Deferred callbacks and task continuations (FIFO) *)
 
-\* SSHChannel._cleanup on side x
-ChanCleanupEffect(x, ch, lg, hs) ==
-    [lg EXCEPT ![x][ch] = IF hs[x][ch] THEN Append(@, "connection_lost") ELSE @]
+\* waiters of channel ch on the client that a clean-up resolves, and the
+\* continuation of create() that this wakes up
+WakeCreate(st, ch) ==
+    IF st.openW[ch] = "pending"
+    THEN [st EXCEPT !.openW[ch] = "err", !.ready = Append(@, <<"c", "afteropen", ch>>)]
+    ELSE IF st.reqW[ch] = "pending"
+    THEN [st EXCEPT !.reqW[ch] = "false", !.ready = Append(@, <<"c", "afterreq", ch>>)]
+    ELSE st
+
+\* SSHChannel._cleanup
+ChanCleanup(st, x, ch) ==
+    LET s1 == [st EXCEPT !.log[x][ch] = IF st.hasSess[x][ch] THEN Append(@, "connection_lost") ELSE @,
+                         !.hasSess[x][ch] = FALSE, !.closeEv[x][ch] = TRUE,
+                         !.reg[x][ch] = FALSE]
+    IN IF x = "c" THEN WakeCreate(s1, ch) ELSE s1
 
 RunReady ==
-    /\ ready # <<>> /\ chunk[2] = 0
-    /\ LET e == Head(ready) x == e[1] k == e[2] ch == e[3] IN
-       /\ lbl' = <<"run", x, k, ch>>
-       /\ UNCHANGED <<nops, ncuts, chunk>>
-       /\ CASE k = "finopen" ->
-                 \* server _finish_open_request
-                 IF reg[x][ch] /\ ~connClosed[x]
-                 THEN /\ net' = Send(x, <<Msg("CONF", ch)>>)
-                      /\ ss' = [ss EXCEPT ![x][ch] = "open"]
-                      /\ rs' = [rs EXCEPT ![x][ch] = "open"]
-                      /\ hasSess' = [hasSess EXCEPT ![x][ch] = TRUE]
-                      /\ log' = [log EXCEPT ![x][ch] = Append(@, "connection_made")]
-                      /\ ready' = Tail(ready)
-                      /\ UNCHANGED <<reg, phase, openW, reqW, createW, reading, closeEv, up,
-                                     connClosed, ownerLost>>
-                 ELSE \* connection went away first: ChannelOpenError path, cleanup deferred
-                      /\ ready' = Append(Tail(ready), <<x, "chan", ch>>)
-                      /\ UNCHANGED <<ss, rs, reg, phase, openW, reqW, createW, hasSess, reading, log,
-                                     closeEv, up, connClosed, ownerLost, net>>
-            [] k = "afteropen" ->
-                 \* client create() resumes after _open()
-                 IF openW[ch] = "ok"
-                 THEN \* session created, connection_made, exec request sent
-                      /\ hasSess' = [hasSess EXCEPT ![x][ch] = TRUE]
-                      /\ log' = [log EXCEPT ![x][ch] = Append(@, "connection_made")]
-                      /\ IF reg[x][ch] /\ ss[x][ch] # "closed"    \* _send_chan still set
-                         THEN /\ reqW' = [reqW EXCEPT ![ch] = "pending"]
-                              /\ phase' = [phase EXCEPT ![ch] = "requesting"]
-                              /\ net' = Send(x, <<Msg("REQ", ch)>>)
-                              /\ UNCHANGED <<createW, ss>>
-                         ELSE \* channel already cleaned up: _make_request returns False,
-                              \* close(), ChannelOpenError
-                              /\ reqW' = [reqW EXCEPT ![ch] = "false"]
-                              /\ phase' = [phase EXCEPT ![ch] = "failed"]
-                              /\ createW' = [createW EXCEPT ![ch] = "err"]
-                              /\ UNCHANGED <<net, ss>>
-                      /\ ready' = Tail(ready)
-                      /\ UNCHANGED <<rs, reg, openW, reading, closeEv, up, connClosed, ownerLost>>
-                 ELSE \* open failed: create() raises
-                      /\ phase' = [phase EXCEPT ![ch] = "failed"]
-                      /\ createW' = [createW EXCEPT ![ch] = "err"]
-                      /\ ready' = Tail(ready)
-                      /\ UNCHANGED <<ss, rs, reg, openW, reqW, hasSess, reading, log, closeEv, up,
-                                     connClosed, ownerLost, net>>
-            [] k = "afterreq" ->
-                 \* client create() resumes after the exec reply
-                 /\ ready' = IF reqW[ch] = "ok" THEN Append(Tail(ready), <<x, "startread", ch>>)
-                             ELSE Tail(ready)
-                 /\ IF reqW[ch] = "ok"
-                    THEN /\ phase' = [phase EXCEPT ![ch] = "started"]
-                         /\ createW' = [createW EXCEPT ![ch] = "ok"]
-                         /\ log' = [log EXCEPT ![x][ch] =
-                                       IF hasSess[x][ch] THEN Append(@, "session_started") ELSE @]
-                         /\ UNCHANGED <<ss, net>>
-                    ELSE \* request failed (clean-up answered False / exception): close()
-                         /\ phase' = [phase EXCEPT ![ch] = "failed"]
-                         /\ createW' = [createW EXCEPT ![ch] = "err"]
-                         /\ net' = Send(x, CloseSendMsgs(x, ch))
-                         /\ ss' = [ss EXCEPT ![x][ch] = IF reg[x][ch] THEN "closed" ELSE @]
-                         /\ UNCHANGED log
-                 /\ UNCHANGED <<rs, reg, openW, reqW, hasSess, reading, closeEv, up, connClosed,
-                                ownerLost>>
-            [] k = "chan" ->
-                 \* SSHChannel._cleanup
-                 /\ ready' = (IF x = "c" /\ openW[ch] = "pending"
-                              THEN Append(Tail(ready), <<x, "afteropen", ch>>)
-                              ELSE IF x = "c" /\ reqW[ch] = "pending"
-                              THEN Append(Tail(ready), <<x, "afterreq", ch>>)
-                              ELSE Tail(ready))
-                 /\ openW' = IF x = "c" /\ openW[ch] = "pending"
-                             THEN [openW EXCEPT ![ch] = "err"] ELSE openW
-                 /\ reqW' = IF x = "c" /\ reqW[ch] = "pending"
-                            THEN [reqW EXCEPT ![ch] = "false"] ELSE reqW
-                 /\ log' = ChanCleanupEffect(x, ch, log, hasSess)
-                 /\ hasSess' = [hasSess EXCEPT ![x][ch] = FALSE]
-                 /\ closeEv' = [closeEv EXCEPT ![x][ch] = TRUE]
-                 /\ reg' = [reg EXCEPT ![x][ch] = FALSE]
-                 /\ UNCHANGED <<ss, rs, phase, createW, reading, up, connClosed, ownerLost, net>>
-            [] k = "startread" ->
-                 \* _start_reading: leave 'starting', flush: a pending EOF is delivered
-                 /\ ready' = Tail(ready)
-                 /\ reading' = [reading EXCEPT ![x][ch] = TRUE]
-                 /\ IF rs[x][ch] = "eof_pending" /\ hasSess[x][ch]
-                    THEN /\ rs' = [rs EXCEPT ![x][ch] = "eof"]
-                         /\ log' = [log EXCEPT ![x][ch] = Append(@, "eof_received")]
-                    ELSE UNCHANGED <<rs, log>>
-                 /\ UNCHANGED <<ss, reg, phase, openW, reqW, createW, hasSess, closeEv, up,
-                                connClosed, ownerLost, net>>
-            [] k = "conn" ->
-                 \* SSHConnection._cleanup: every registered channel is closed and
-                 \* cleaned up at once (process_connection_close), owner notified
-                 LET chs == {c \in Chans : reg[x][c]} IN
-                 /\ connClosed' = [connClosed EXCEPT ![x] = TRUE]
-                 /\ ownerLost' = [ownerLost EXCEPT ![x] = IF connClosed[x] THEN @ ELSE @ + 1]
-                 /\ ss' = [ss EXCEPT ![x] = [c \in Chans |-> IF c \in chs THEN "closed" ELSE ss[x][c]]]
-                 /\ log' = [log EXCEPT ![x] = [c \in Chans |->
-                               IF c \in chs /\ hasSess[x][c] THEN Append(log[x][c], "connection_lost")
-                               ELSE log[x][c]]]
-                 /\ hasSess' = [hasSess EXCEPT ![x] = [c \in Chans |-> IF c \in chs THEN FALSE ELSE hasSess[x][c]]]
-                 /\ closeEv' = [closeEv EXCEPT ![x] = [c \in Chans |-> closeEv[x][c] \/ c \in chs]]
-                 /\ reg' = [reg EXCEPT ![x] = [c \in Chans |-> FALSE]]
-                 /\ openW' = IF x = "c" /\ ResolveOnConnCleanup
-                             THEN [c \in Chans |-> IF c \in chs /\ openW[c] = "pending" THEN "err" ELSE openW[c]]
-                             ELSE openW
-                 /\ reqW' = IF x = "c" THEN [c \in Chans |-> IF c \in chs /\ reqW[c] = "pending" THEN "err" ELSE reqW[c]]
-                            ELSE reqW
-                 /\ ready' = LET w1 == IF x = "c" /\ 1 \in chs /\ openW[1] = "pending" /\ ResolveOnConnCleanup THEN <<<<x, "afteropen", 1>>>>
-                                       ELSE IF x = "c" /\ 1 \in chs /\ reqW[1] = "pending" THEN <<<<x, "afterreq", 1>>>> ELSE <<>>
-                                 w2 == IF x = "c" /\ 2 \in chs /\ openW[2] = "pending" /\ ResolveOnConnCleanup THEN <<<<x, "afteropen", 2>>>>
-                                       ELSE IF x = "c" /\ 2 \in chs /\ reqW[2] = "pending" THEN <<<<x, "afterreq", 2>>>> ELSE <<>>
-                             IN Tail(ready) \o w1 \o w2
-                 /\ UNCHANGED <<rs, phase, createW, reading, up, net>>
-            [] OTHER -> FALSE
+    /\ s.ready # <<>> /\ s.chunk[2] = 0
+    /\ LET e == IF s.ready = <<>> THEN <<"c", "none", 0>> ELSE Head(s.ready)
+           x == e[1] k == e[2] ch == e[3]
+           s0 == [s EXCEPT !.ready = Tail(@)]
+           new ==
+             IF k = "finopen" THEN
+                \* server _finish_open_request
+                IF s.reg[x][ch] /\ ~s.connClosed[x]
+                THEN [s0 EXCEPT !.net[x] = Out(x, <<Msg("CONF", ch)>>),
+                                !.ss[x][ch] = "open", !.rs[x][ch] = "open",
+                                !.hasSess[x][ch] = TRUE,
+                                !.log[x][ch] = Append(@, "connection_made")]
+                ELSE [s0 EXCEPT !.ready = Append(@, <<x, "chan", ch>>)]
+             ELSE IF k = "afteropen" THEN
+                \* client create() resumes after _open()
+                IF s.openW[ch] = "ok"
+                THEN LET s1 == [s0 EXCEPT !.hasSess[x][ch] = TRUE,
+                                          !.log[x][ch] = Append(@, "connection_made")]
+                     IN IF s.reg[x][ch] /\ s.ss[x][ch] # "closed"
+                        THEN [s1 EXCEPT !.reqW[ch] = "pending", !.phase[ch] = "requesting",
+                                        !.net[x] = Out(x, <<Msg("REQ", ch)>>)]
+                        ELSE \* _send_chan is gone: request "fails", close(), ChannelOpenError
+                             [s1 EXCEPT !.reqW[ch] = "false", !.phase[ch] = "failed",
+                                        !.createW[ch] = "err",
+                                        !.rbufN[x][ch] = 0,
+                                        !.reading[x][ch] = IF s.reg[x][ch] /\ s.rs[x][ch] # "closed" THEN "reading" ELSE @,
+                                        !.rs[x][ch] = IF @ = "close_pending" THEN "closed" ELSE @,
+                                        !.ready = IF s.rs[x][ch] = "close_pending" /\ s.reg[x][ch]
+                                                  THEN Append(@, <<x, "chan", ch>>) ELSE @]
+                ELSE [s0 EXCEPT !.phase[ch] = "failed", !.createW[ch] = "err"]
+             ELSE IF k = "afterreq" THEN
+                IF s.reqW[ch] = "ok"
+                THEN [s0 EXCEPT !.phase[ch] = "started", !.createW[ch] = "ok",
+                                !.log[x][ch] = Logged(x, ch, <<"session_started">>),
+                                !.ready = Append(@, <<x, "startread", ch>>)]
+                ELSE \* request failed: close(), ChannelOpenError
+                     [s0 EXCEPT !.phase[ch] = "failed", !.createW[ch] = "err",
+                                !.net[x] = Out(x, CloseMsgs(x, ch)),
+                                !.ss[x][ch] = IF s.reg[x][ch] THEN "closed" ELSE @,
+                                !.rbufN[x][ch] = 0,
+                                !.reading[x][ch] = IF s.reg[x][ch] /\ s.rs[x][ch] # "closed" THEN "reading" ELSE @,
+                                !.rs[x][ch] = IF @ = "close_pending" THEN "closed" ELSE @,
+                                !.ready = IF s.rs[x][ch] = "close_pending" /\ s.reg[x][ch]
+                                          THEN Append(@, <<x, "chan", ch>>) ELSE @]
+             ELSE IF k = "startread" THEN
+                \* _start_reading: leave 'starting' and flush
+                IF s.reading[x][ch] = "starting"
+                THEN Flushed([s0 EXCEPT !.reading[x][ch] = "reading"], x, ch)
+                ELSE s0
+             ELSE IF k = "chan" THEN ChanCleanup(s0, x, ch)
+             ELSE IF k = "conn" THEN
+                \* SSHConnection._cleanup: every registered channel is closed for
+                \* sending and cleaned up at once, owner notified
+                LET chs == {c \in Chans : s.reg[x][c]}
+                    s1 == [s0 EXCEPT !.connClosed[x] = TRUE,
+                                     !.ownerLost[x] = IF s.connClosed[x] THEN @ ELSE @ + 1,
+                                     !.ss[x] = [c \in Chans |-> IF c \in chs THEN "closed" ELSE @[c]],
+                                     !.log[x] = [c \in Chans |-> IF c \in chs /\ s.hasSess[x][c]
+                                                                 THEN Append(@[c], "connection_lost") ELSE @[c]],
+                                     !.hasSess[x] = [c \in Chans |-> IF c \in chs THEN FALSE ELSE @[c]],
+                                     !.closeEv[x] = [c \in Chans |-> @[c] \/ c \in chs],
+                                     !.reg[x] = [c \in Chans |-> FALSE]]
+                    w1 == IF x = "c" /\ 1 \in chs /\ (ResolveOnConnCleanup \/ s.openW[1] # "pending")
+                          THEN WakeCreate(s1, 1) ELSE s1
+                    w2 == IF x = "c" /\ 2 \in chs /\ (ResolveOnConnCleanup \/ s.openW[2] # "pending")
+                          THEN WakeCreate(w1, 2) ELSE w1
+                IN w2
+             ELSE s0
+       IN Step(new, <<"run", x, k, ch>>)
 
 Next ==
     \/ RunReady
     \/ \E ch \in Chans : Open(ch)
-    \/ \E x \in Sides, ch \in Chans : WriteEOF(x, ch) \/ Close(x, ch, "close") \/ Close(x, ch, "abort")
+    \/ \E x \in Sides, ch \in Chans :
+          \/ WriteEOF(x, ch) \/ Close(x, ch, "close") \/ Close(x, ch, "abort")
+          \/ WriteData(x, ch) \/ Pause(x, ch) \/ Resume(x, ch)
     \/ \E x \in Sides : ConnClose(x) \/ ConnAbort(x) \/ Deliver(x)
     \/ \E x \in Sides, k \in 1..3 : StartChunk(x, k)
     \/ Cut
 
 Spec == Init /\ [][Next]_vars
-LiveSpec == Spec /\ WF_vars(RunReady) /\ \A x \in Sides : WF_vars(Deliver(x)) /\ WF_vars(StartChunk(x, 1))
+LiveSpec == Spec /\ WF_vars(RunReady)
+                 /\ \A x \in Sides : WF_vars(Deliver(x)) /\ WF_vars(StartChunk(x, 1))
 
 -----------------------------------------------------------------------------
 (* Properties (C09) *)
-Count(s, v) == Cardinality({i \in 1..Len(s) : s[i] = v})
-LastIs(s, v) == s # <<>> /\ s[Len(s)] = v
+Count(q, v) == Cardinality({i \in 1..Len(q) : q[i] = v})
+LastIs(q, v) == q # <<>> /\ q[Len(q)] = v
 
-\* final close notification exactly once and nothing after it
 CloseOnceAndLast == \A x \in Sides, ch \in Chans :
-    /\ Count(log[x][ch], "connection_lost") <= 1
-    /\ Count(log[x][ch], "connection_lost") = 1 => LastIs(log[x][ch], "connection_lost")
-    /\ ownerLost[x] <= 1
+    /\ Count(s.log[x][ch], "connection_lost") <= 1
+    /\ Count(s.log[x][ch], "connection_lost") = 1 => LastIs(s.log[x][ch], "connection_lost")
+    /\ s.ownerLost[x] <= 1
 LegalOrder == \A x \in Sides, ch \in Chans :
-    /\ log[x][ch] # <<>> => log[x][ch][1] = "connection_made"
-    /\ Count(log[x][ch], "connection_made") <= 1
-    /\ Count(log[x][ch], "session_started") <= 1
-    /\ Count(log[x][ch], "eof_received") <= 1
-NoChannelLeft == \A x \in Sides : connClosed[x] => \A ch \in Chans : ~reg[x][ch]
+    /\ s.log[x][ch] # <<>> => s.log[x][ch][1] = "connection_made"
+    /\ Count(s.log[x][ch], "connection_made") <= 1
+    /\ Count(s.log[x][ch], "session_started") <= 1
+    /\ Count(s.log[x][ch], "eof_received") <= 1
+    /\ \A i \in 1..Len(s.log[x][ch]) : s.log[x][ch][i] = "eof_received" =>
+          \A j \in (i+1)..Len(s.log[x][ch]) : s.log[x][ch][j] # "data_received"
+NoChannelLeft == \A x \in Sides : s.connClosed[x] => \A ch \in Chans : ~s.reg[x][ch]
 
-Quiescent == ready = <<>> /\ \A x \in Sides : net[x] = <<>>
-\* at quiescence: every waiter is resolved unless it legitimately waits for the
-\* peer's reply over a connection that is still up
-ConnDown(x) == connClosed[x]
+Quiescent == s.ready = <<>> /\ s.chunk[2] = 0 /\ \A x \in Sides : s.net[x] = <<>>
 AllWaitersResolved ==
     Quiescent =>
-      /\ \A ch \in Chans : createW[ch] = "pending" => (~ConnDown("c") /\ ~ConnDown("s"))
-      /\ \A ch \in Chans : openW[ch] = "pending" => (~ConnDown("c") /\ ~ConnDown("s"))
-      /\ \A x \in Sides : connClosed[x] => \A ch \in Chans : (log[x][ch] # <<>> => closeEv[x][ch])
-\* a session that was told connection_made is eventually told connection_lost
-\* once its connection is closed
+      /\ \A ch \in Chans : s.createW[ch] = "pending" => (~s.connClosed["c"] /\ ~s.connClosed["s"])
+      /\ \A ch \in Chans : s.openW[ch] = "pending" => (~s.connClosed["c"] /\ ~s.connClosed["s"])
+      /\ \A x \in Sides : s.connClosed[x] =>
+            \A ch \in Chans : (s.log[x][ch] # <<>> => s.closeEv[x][ch])
+\* at quiescence create_session() has always returned or raised
+CreateDecided == Quiescent => \A ch \in Chans : s.createW[ch] # "pending"
 MadeImpliesLost ==
     Quiescent => \A x \in Sides, ch \in Chans :
-        (connClosed[x] /\ Count(log[x][ch], "connection_made") = 1)
-            => Count(log[x][ch], "connection_lost") = 1
-\* once the transport is gone on one side, the connection clean-up runs
-Terminates == \A x \in Sides : (~up[x]) ~> connClosed[x]
+        (s.connClosed[x] /\ Count(s.log[x][ch], "connection_made") = 1)
+            => Count(s.log[x][ch], "connection_lost") = 1
+Terminates == \A x \in Sides : (~s.up[x]) ~> s.connClosed[x]
+
+\* emits complete behaviours (all operations used, everything delivered) while
+\* TLC simulates; always TRUE
+EmitScript == (Quiescent /\ s.nops >= 3) => PrintT(ToString(<<"SCRIPT", script, s>>))
 
 \* witnesses
-NeverStarted == \A ch \in Chans : phase[ch] # "started"
-NeverErr == \A ch \in Chans : createW[ch] # "err"
+NeverStarted == \A ch \in Chans : s.phase[ch] # "started"
+NeverErr == \A ch \in Chans : s.createW[ch] # "err"
+NeverClosePending == \A x \in Sides, ch \in Chans : s.rs[x][ch] # "close_pending"
 =============================================================================
